@@ -15,11 +15,11 @@ import (
 type hcase struct {
 	ops  []opT
 	outs []string
-	ml   []int          // step -> the model's index of the loader the operation names (the type-set loaders that the
+	ml   []int // step -> the model's index of the loader the operation names (the type-set loaders that the
 	//                      resolution of a type set creates are loaders of the model too)
-	adds map[int]string // step -> the Gallina term of an AddTypes operation (the types as they were parsed)
-	ctx  []int          // step -> the model's number of the loader that the context of the operation's loader holds afterwards
-	clause string       // the clause of full.go that step `bad` violates ("" = the step's output differs from the reference's)
+	adds   map[int]string // step -> the Gallina term of an AddTypes operation (the types as they were parsed)
+	ctx    []int          // step -> the model's number of the loader that the context of the operation's loader holds afterwards
+	clause string         // the clause of full.go that step `bad` violates ("" = the step's output differs from the reference's)
 }
 
 func clauseAt(hc hcase, ops []opT, bad int) string {
